@@ -304,34 +304,29 @@ fn run_one(bin: &str, cfg: &Cfg, programs: &[Vec<u8>]) -> (Vec<String>, Vec<Stri
                     let mut c = TcpStream::connect(("127.0.0.1", cfg.port)).unwrap();
                     c.set_nodelay(true).ok();
                     let t0 = Instant::now();
-                    let r = roundtrip(&mut c, &wire::set_like(op::SET, b"ttl", b"v", 0, 4, 0, 1).bytes(), 1000);
+                    let r = roundtrip(&mut c, &wire::set_like(op::SET, b"ttl", b"v", 0, 6, 0, 1).bytes(), 1000);
                     if wire::parse_resp(&r).map(|r| r.status).unwrap_or(9) != 0 {
                         viols.push((vec!["C20"], "ttl probe: set failed".into()));
                     }
-                    std::thread::sleep(Duration::from_millis(2300));
+                    std::thread::sleep(Duration::from_millis(3300));
                     let r = roundtrip(&mut c, &wire::key_only(op::GET, b"ttl", 0, 2).bytes(), 1000);
                     let st1 = wire::parse_resp(&r).map(|r| r.status).unwrap_or(9);
                     if st1 != 0 {
-                        viols.push((vec!["C20", "C05"], format!("an item stored with TTL 4 s is gone after {:.1} s of real time (status {:#x}): the clock runs fast", t0.elapsed().as_secs_f32(), st1)));
+                        viols.push((vec!["C20", "C05"], format!("an item stored with TTL 6 s is gone after {:.1} s of real time (status {:#x}): the clock runs fast", t0.elapsed().as_secs_f32(), st1)));
                     }
                     // real elapsed seconds, also across a pause of the whole process (a stopped VM, a debugger, SIGSTOP): the
-                    // server is frozen for 2.9 s and must have caught up with real time when the item's 4 s are over
+                    // server is frozen for 5 s — its clock stood at 3 — and must have caught up with real time (8.4 s) when it
+                    // is looked at 1.25 s after it resumed. (A clock that loses the seconds it was not scheduled reaches 6 only
+                    // at 10 s of real time. The 1.25 s are the allowance for a loaded machine to run the server's timer task.)
                     let pid = _p2.child.id() as i32;
                     unsafe { libc::kill(pid, libc::SIGSTOP) };
-                    std::thread::sleep(Duration::from_millis(2900));
+                    std::thread::sleep(Duration::from_millis(5000));
                     unsafe { libc::kill(pid, libc::SIGCONT) };
-                    std::thread::sleep(Duration::from_millis(600));
+                    std::thread::sleep(Duration::from_millis(1250));
                     let r = roundtrip(&mut c, &wire::key_only(op::GET, b"ttl", 0, 3).bytes(), 1000);
-                    let mut st2 = wire::parse_resp(&r).map(|r| r.status).unwrap_or(9);
+                    let st2 = wire::parse_resp(&r).map(|r| r.status).unwrap_or(9);
                     if st2 != 1 {
-                        // on a loaded machine the resumed process may need a moment to run its timer task: one more look
-                        // 0.6 s later (a clock that lost the 2.9 s would still be a second short)
-                        std::thread::sleep(Duration::from_millis(600));
-                        let r = roundtrip(&mut c, &wire::key_only(op::GET, b"ttl", 0, 4).bytes(), 1000);
-                        st2 = wire::parse_resp(&r).map(|r| r.status).unwrap_or(9);
-                    }
-                    if st2 != 1 {
-                        viols.push((vec!["C20", "C05", "C08"], format!("an item stored with TTL 4 s is still returned after {:.1} s of real time, 2.9 s of which the server process was stopped (status {:#x}): the clock runs slow, not at all, or loses the seconds it was not scheduled", t0.elapsed().as_secs_f32(), st2)));
+                        viols.push((vec!["C20", "C05", "C08"], format!("an item stored with TTL 6 s is still returned after {:.1} s of real time, 5 s of which the server process was stopped (status {:#x}): the clock runs slow, not at all, or loses the seconds it was not scheduled", t0.elapsed().as_secs_f32(), st2)));
                     }
                 }
                 continue;
